@@ -92,7 +92,7 @@ func ParseAllPAIValues(buf []byte, offs int, c *PPAIs) (int, ErrorHdr) {
 		next, err = ParseOnePAI(buf, offs, pf)
 		switch err {
 		case 0, ErrHdrMoreValues:
-			if c.N == 0 {
+			if c.LastHVal.Empty() { // first value of this header
 				c.LastHVal = pf.V
 			} else {
 				c.LastHVal.Extend(int(pf.V.Offs + pf.V.Len))
